@@ -1270,7 +1270,7 @@ def run_lazy_impl(case):
                     else:
                         # F54: dask computes a blockwise layer wrongly over a zero-length block left by a stepped slice;
                         # indexer[()] (dask_getitem + da.store on the same data set) is not affected
-                        ent['zero_block'] = any(0 in c for c in v.chunks) and v.size > 0
+                        ent['zero_block'] = any(0 in c and sum(c) > 0 for c in v.chunks)     # a non-empty axis with an empty block
                         if ent['zero_block']:
                             ent['via_getitem'] = arr3(t[()])
                 elif r['kind'] == 'iter':
